@@ -78,6 +78,10 @@ template<int L, glm::qualifier Q> void float_ops(size_t k, std::vector<float> co
         V ff = glm::faceforward(n, b, c); EV("faceforward", float, Q, L).arg(n).arg(b).arg(c).res(ff).emit(); }
     // exact branch ties for faceforward: dot = 0 exactly
     { V n(0.0f), i(0.0f), nr(0.0f); n[0] = 1.0f; i[L > 1 ? 1 : 0] = 1.0f; nr[0] = (L > 1) ? 2.0f : 0.0f; V ff = glm::faceforward(n, i, nr); EV("faceforward", float, Q, L).arg(n).arg(i).arg(nr).res(ff).emit(); }
+    // ... and dot = -0 exactly (every product is -0), dot = the smallest negative / positive subnormal: the decision is "dot < 0", not the sign bit
+    { V n(0.0f), nr(1.0f); n[0] = 1.0f; n[L - 1] = -2.0f;
+      for (uint32_t bits : { 0x80000000u, 0x00000000u, 0x80000001u, 0x00000001u }) { V i(from_bits<float>(bits)); if (L > 1 && (bits & 0x7fffffffu)) { for (int j = 1; j < L; ++j) i[j] = 0.0f; }
+        V ff = glm::faceforward(n, i, nr); EV("faceforward", float, Q, L).arg(n).arg(i).arg(nr).res(ff).emit(); } }
 #undef U1
 #undef B2
 #undef T3
